@@ -16,11 +16,14 @@ CLAIMS = {
     "C13": dict(
         technique="Coq proof (induction over both passes of handle_operations) over an executable model; differential correspondence with the real handle_operations and public API; spec-level linearizability oracle",
         text="Theorems batch_accounting (every op of a batch answered exactly once; size changes by successful pushes minus pops; mark = size after every batch) "
-             "and pop_fails_only_when_empty are proved for every queue state and every batch; exception isolation (a throwing element copy / assignment is answered to its own operation, "
+             "and pop_fails_only_when_empty are proved for every queue state and every batch; batch_is_a_priority_queue_history: for every heap-ordered queue and every batch there is an order of the batch's operations "
+             "(all pending together, so any order respects real time) that is a legal sequential priority-queue history from the contents before to the contents after — each successful pop returns an element >= all "
+             "elements present at its point, a pop fails only on empty contents, nothing lost or duplicated — and heapify/reheap restore the binary-heap order (sift-up / sift-down invariants proved); "
+             "all_batches_form_a_priority_queue_history lifts this to any sequence of batches from the empty queue; exception isolation (a throwing element copy / assignment is answered to its own operation, "
              "queue and other results identical to the batch without it) is proved for both passes. The model (both passes, heapify, reheap, faults) is compared with the real "
              "handle_operations on the exact data array after every batch; a brute-force priority-queue linearizability oracle decides violations. Defect found and repaired (fix: 60f5e0e).",
-        note="Partial: the heap-order invariant (a successful pop returns a maximum) is not yet a theorem — it is checked by the oracle on every compared case. "
-             "Not modelled: aggregator pending-stack CAS / handler election.",
+        note="Not modelled: the aggregator (pending-stack CAS, handler election) — that operations of one batch overlap in real time and batches are executed one after the other is taken from the code by reading "
+             "and exercised by the real-thread linearizability oracle only; Compare = std::less<int> in the model.",
         ref="4/C13"),
     "C08": dict(
         technique="Coq proof of an inductive invariant over all interleavings (N threads) of an access-level small-step model; step-level correspondence with the real lock under a deterministic atomic-access gate",
